@@ -1886,6 +1886,17 @@ where
                             if ann.node == *remote {
                                 continue;
                             }
+                            // Don't replay a stored inventory announcement of our own that isn't
+                            // the current one: it may list repositories that have since been
+                            // made private or removed. The current inventory is sent to every
+                            // peer when it connects, and whenever it changes.
+                            if ann.node == *self.signer.public_key() {
+                                if let AnnouncementMessage::Inventory(inv) = &ann.message {
+                                    if inv.timestamp != self.inventory.timestamp {
+                                        continue;
+                                    }
+                                }
+                            }
                             // Only send refs announcements of repositories we have if the peer is
                             // allowed to know about the repository, same as when relaying them.
                             // Nb. Announcements of repositories we don't have are still replayed,
